@@ -585,6 +585,82 @@ EXTRA = ['CC(=O)[O-].[NH4+]', 'C[NH3+].[Cl-]', '[Na+].CC(=O)[O-]', 'CC(=O)O.CN',
          'C1=CC=CC=[N+]1[O-]', 'CC[S](=O)(=O)[O-].[K+]', 'OP(O)(O)=O', '[O-]P([O-])([O-])=O.[Na+].[Na+].[Na+]']
 
 
+def charged_documented():
+    """SMILES written in the comments of `_charged.py` (the spellings the charge-position rules document), read from the
+    source text of the working tree: [(A, B)] for `A>>B` comments and [(A, None)] for single spellings."""
+    import re
+    out = []
+    try:
+        src = (core.REPO / 'chython' / 'algorithms' / 'standardize' / '_charged.py').read_text()
+    except OSError:
+        return out
+    for line in src.splitlines():
+        line = line.strip()
+        if not line.startswith('#'):
+            continue
+        m = re.match(r'#\s*(\S+)>>(\S+)\s*$', line)
+        if m and '+' in m.group(1):
+            out.append((m.group(1), m.group(2)))
+            continue
+        m = re.match(r'#\s*(\S+)\s*$', line)
+        if m and '+' in m.group(1) and '[' in m.group(1) and len(m.group(1)) > 6:
+            out.append((m.group(1), None))
+    return out
+
+
+def n_methylated(m):
+    """the same cation with every neutral N-H replaced by N-CH3 (the resonance step leaves N-substituted azoles alone)"""
+    from chython.periodictable import C
+    ns = [n for n, a in m.atoms() if a.atomic_number == 7 and not a.charge and (a.implicit_hydrogens or 0) >= 1]
+    if not ns:
+        return None
+    c = m.copy()
+    for n in ns:
+        k = c.add_atom(C())
+        c.add_bond(n, k, 1)
+    return c
+
+
+def azolium_instances():
+    out = []
+    seen = set()
+    for a, b in charged_documented():
+        for smi in (a, b):
+            if not smi or smi in seen:
+                continue
+            seen.add(smi)
+            m = molgen.parse(smi)
+            if m is None:
+                continue
+            out.append((f'azolium:{smi}', normalised(m), [], None))
+            try:
+                k = n_methylated(m)
+            except Exception:
+                k = None
+            if k is not None:
+                out.append((f'azolium:{smi}:NMe', normalised(k), [], None))
+    return out
+
+
+HETARENES = ['c1c[nH]cn1', 'c1cnc[nH]1', 'c1cn[nH]c1', 'c1cc[nH]n1', 'c1nc[nH]n1', 'c1cc[nH]c1', 'c1c[nH]c2ccccc12', 'c1nc2ccccc2[nH]1',
+             'c1ccncc1', 'c1ncc2[nH]cnc2n1', 'c1ccc2[nH]nnc2c1', 'c1cnc2[nH]ccc2c1']
+
+
+def hetarene_pairs(ctx, n):
+    """molecules with TWO separate hetero-aromatic systems (linked by CH2, or as two components): tautomer generators must
+    not move hydrogens between them"""
+    pairs = [(a, b) for a in HETARENES for b in HETARENES]
+    if n < len(pairs):
+        pairs = ctx.rng.sample(pairs, n)
+    out = []
+    for a, b in pairs:
+        for smi in (f'C({a}){b}', f'{a}.{b}'):
+            m = molgen.parse(smi)
+            if m is not None:
+                out.append((f'hetpair:{smi}', normalised(m), [], None))
+    return out
+
+
 def normalised(m):
     """aromatic input as the library wants it: `smiles()` leaves the hydrogen counts of aromatic hetero atoms undefined (and
     ring-ring bonds aromatic) until `kekule()`; kekule + thiele (without tautomer fixing) gives the same drawing with every
@@ -615,6 +691,8 @@ def molecule_pool(ctx):
     pool += inst
     pool += overlap_instances(ctx, 1 if ctx.quick else 3)
     pool += multi_ligand_instances(ctx, (2, 3) if ctx.quick else (2, 3, 4), 10 if ctx.quick else 40)
+    pool += azolium_instances()
+    pool += hetarene_pairs(ctx, 8 if ctx.quick else 144)
     if not ctx.quick:
         g = grid_instances(ctx)
         pool += g
@@ -1140,11 +1218,25 @@ def inconsistent_atoms(m):
     return bad
 
 
+def not_kekulizable(o):
+    """a result must be a drawable structure: its aromatic rings have a Kekule form and, in that form, every atom has a count
+    the valence rules allow (aromatic atoms cannot be judged by `check_implicit` directly). Returns a description or None."""
+    if not any(int(b) == 4 for _, _, b in o.bonds()):
+        return None
+    c = o.copy()
+    try:
+        c.kekule()
+    except Exception as e:
+        return f'{type(e).__name__}: {str(e)[:80]}'
+    bad = c.check_valence() or inconsistent_atoms(c)
+    return f'Kekule form has invalid atoms {bad}' if bad else None
+
+
 def is_valid(m):
     """valence-valid input of the property: no atom without a hydrogen count, every stored count allowed by the valence rules,
     and no hydrogen drawn with two bonds / a multiple bond (chython never flags hydrogens; `implicify_hydrogens` documents a
     ValenceError for them)."""
-    return not m.check_valence() and not _hydrogen_drawn_invalid(m) and not inconsistent_atoms(m)
+    return not m.check_valence() and not _hydrogen_drawn_invalid(m) and not inconsistent_atoms(m) and not not_kekulizable(m)
 
 
 def pattern_names():
@@ -1206,6 +1298,10 @@ def oracle(ints, op, ft, rng=None, renumber=True):
         if o.check_valence() or inconsistent_atoms(o):
             fails.append(('valence-error', f'atoms {o.check_valence() or inconsistent_atoms(o)} after {op}'))
             continue
+        nk = not_kekulizable(o)
+        if nk:
+            fails.append(('valence-error', f'{str(o)} after {op} is not a structure: {nk}'))
+            continue
         if op == 'neutralize':
             if q1 - q0 != h1 - h0:
                 fails.append(('proton-balance', f'charge {q0}->{q1}, H {h0}->{h1}'))
@@ -1223,8 +1319,11 @@ def oracle(ints, op, ft, rng=None, renumber=True):
         s1 = str(m)
         w1 = wire.mol_to_ints(m)
         try:
+            before = m.copy()
             apply_op(op, m, ft)
-            if str(m) != s1 or wire.mol_to_ints(m) != w1:
+            # the same structure (atom for atom, or - when a charge / hydrogen sits on another of several equivalent atoms -
+            # isomorphic including hydrogen counts)
+            if str(m) != s1 or (wire.mol_to_ints(m) != w1 and not same_structure(before, m)):
                 fails.append(('idempotent', f'{s1} -> {str(m)}'))
         except Exception as e:
             fails.append(('idempotent', f'second application raised {type(e).__name__}: {e}'))
@@ -1515,6 +1614,53 @@ def accounting_oracle(ints, ft=True):
     return []
 
 
+def charged_documented_oracle(a, b):
+    """`A>>B` of `_charged.py`: both spellings are the same cation and canonicalize() brings them to one form"""
+    from chython import smiles
+    try:
+        x, y = smiles(a), smiles(b)
+        qa = int(x)
+        x.canonicalize(fix_tautomers=False)
+        y.canonicalize(fix_tautomers=False)
+    except Exception as e:
+        return [('documented-spelling', f'{a}>>{b}: {type(e).__name__}: {e}')]
+    if int(x) != qa:
+        return [('net-charge', f'{a}: {qa} -> {int(x)} ({str(x)})')]
+    if not same_structure(x, y):
+        return [('documented-spelling', f'{a} -> {str(x)}, documented {b} -> {str(y)}')]
+    return []
+
+
+def hydrogen_spelling_oracle(ints):
+    """canonicalize() promises a form without explicit hydrogens: the all-explicit spelling of a valid molecule must reach the
+    same result as the implicit one, in one call. Returns [(check, detail, explained)]: `explained` = the difference is the
+    recorded order-of-steps finding (rules run before implicify: a second call, or implicify first, gives the right result)."""
+    m0, _ = wire.ints_to_mol(ints, calc=True)
+    m0.clean_stereo()
+    if not is_valid(m0) or any(a.atomic_number == 1 for _, a in m0.atoms()):
+        return []
+    try:
+        ref = m0.copy()
+        ref.canonicalize(fix_tautomers=False)
+        e = m0.copy()
+        if not e.explicify_hydrogens():
+            return []
+        e1 = e.copy()
+        e1.canonicalize(fix_tautomers=False)
+    except Exception as ex:
+        return [('hydrogen-spelling', f'{type(ex).__name__}: {ex}', False)]
+    if same_structure(ref, e1):
+        return []
+    try:
+        e2 = e1.copy()
+        e2.canonicalize(fix_tautomers=False)
+        explained = same_structure(ref, e2) and any(a.atomic_number != 1 and a.implicit_hydrogens is not None for _, a in e1.atoms()) \
+            and not any(a.atomic_number == 1 for _, a in e1.atoms())
+    except Exception:
+        explained = False
+    return [('hydrogen-spelling', f'implicit -> {canon(ref)}, all-explicit -> {canon(e1)}', explained)]
+
+
 def twice_oracle(ints, op):
     """idempotence alone (no other clause in front of it): the second call must report nothing and change nothing"""
     m, _ = wire.ints_to_mol(ints, calc=True)
@@ -1589,6 +1735,25 @@ def relational(ctx, pool, programs):
             ctx.fail(sg, f'{lab} [{str(mol)}]: {detail}', {'kind': 'converted', 'wire': ints, 'table': _h[0], 'index': _h[1], 'smiles': str(mol)})
         for check, detail in accounting_oracle(ints):
             ctx.fail(sig('standardize', check), f'{lab} [{str(mol)}]: {detail}', {'kind': 'accounting', 'wire': ints, 'smiles': str(mol)})
+    for a, b in charged_documented():
+        if b:
+            ctx.count(('documented-charged', a))
+            ctx.dist('R:documented-charged')
+            for check, detail in charged_documented_oracle(a, b):
+                ctx.fail(sig('canonicalize', check), detail, {'kind': 'documented-charged', 'a': a, 'b': b})
+    # the all-explicit spelling of a molecule reaches the same canonical form
+    hs_budget = time.time() + (15 if ctx.quick else 120)
+    for lab, mol, _f, _h in pool:
+        if time.time() > hs_budget:
+            break
+        if len(mol) > 40 or lab.startswith(('xmetal', 'multi', 'mix', 'rand', 'ion', 'overlap')) or 'xmetal' in lab:
+            continue
+        ints = wire.mol_to_ints(mol)
+        ctx.count(('R', 'hydrogen-spelling', str(mol)))
+        ctx.dist('R:hydrogen-spelling')
+        for check, detail, explained in hydrogen_spelling_oracle(ints):
+            sg = 'C14/canonicalize/hydrogen-spelling/rules-before-implicify' if explained else sig('canonicalize', check)
+            ctx.fail(sg, f'{lab} [{str(mol)}]: {detail}', {'kind': 'hydrogen-spelling', 'wire': ints, 'smiles': str(mol)})
     # several ligands on one metal: one call must do all of them
     for lab, mol, _f, _h in pool:
         if not lab.startswith(('multi:', 'mix:')):
@@ -1603,6 +1768,9 @@ def relational(ctx, pool, programs):
                              {'kind': 'twice', 'op': op, 'wire': ints, 'smiles': str(mol)})
     order = list(range(len(pool)))
     ctx.rng.shuffle(order)
+    # small purpose-built classes first (the time budget cuts the tail of the shuffled rest, never these)
+    first = ('azolium:', 'hetpair:', 'extra:', 'hand:', 'ion:')
+    order.sort(key=lambda i: 0 if pool[i][0].startswith(first) else 1)
     done = 0
     for i in order:
         if time.time() - t0 > budget:
@@ -1735,6 +1903,17 @@ def probe(inp):
     if kind == 'documented':
         f = documented_oracle(inp['raw'], inp['result'])
         return bool(f), f[0][1] if f else f'{inp["raw"]} standardizes to the documented {inp["result"]}'
+    if kind == 'documented-charged':
+        f = charged_documented_oracle(inp['a'], inp['b'])
+        return bool(f), f[0][1] if f else f'{inp["a"]} and {inp["b"]} reach the same canonical form'
+    if kind in ('hydrogen-spelling', 'hydrogen-spelling-smiles'):
+        if kind == 'hydrogen-spelling-smiles':
+            from chython import smiles
+            ints = wire.mol_to_ints(normalised(smiles(inp['smiles'])))
+        else:
+            ints = inp['wire']
+        f = hydrogen_spelling_oracle(ints)
+        return bool(f), f'{inp.get("smiles")}: ' + (f[0][1] if f else 'explicit and implicit spelling reach the same canonical form')
     if kind == 'twice':
         f = twice_oracle(inp['wire'], inp['op'])
         return bool(f), f'{inp["op"]} twice on {inp.get("smiles")}: ' + (f[0][1] if f else 'second call changes nothing')
